@@ -23,8 +23,10 @@ RULE = ('Real threads under a cooperative scheduler that owns the schedule: '
         'the actors are the terminating actions above, yield points are '
         'placed on every client-manager method the server calls, on '
         'eio.send / send_packet and at disconnect-handler entry. Pairs are '
-        'enumerated exhaustively by DFS over the choice tree; triples are '
-        'explored with Hypothesis-generated choice lists. Oracle: the '
+        'enumerated exhaustively by DFS over the choice tree; triples, and '
+        'pairs at a finer granularity (yield points also at the calls the '
+        'manager makes to itself), are explored with Hypothesis-generated '
+        'choice lists. Oracle: the '
         'disconnect handler ran exactly once for the victim, no exception '
         'escaped an actor or was contained by engine.io, the victim left no '
         'trace (rooms, pending_disconnect, callbacks), the bystander and the '
@@ -36,7 +38,7 @@ ASSUMPTIONS = [
     'bytecodes',
     'the threading async mode (no eventlet/gevent)',
 ]
-BUDGET = {'quick': 600, 'thorough': 40000}
+BUDGET = {'quick': 4000, 'thorough': 80000}
 FLOOR = {'quick': 100, 'thorough': 2000}
 
 ACTORS = ['sdisc', 'cdisc', 'lose', 'odisc']
@@ -94,15 +96,23 @@ def enumerate_sharded(tier, shard, nshards):
 
 def _key(case):
     return (tuple(case['actors']), case['two_ns'], case['bystander'],
-            tuple(case['choices']))
+            bool(case.get('fine')), tuple(case['choices']))
 
 
 def strategy(tier):
     acts = st.lists(st.sampled_from(ACTORS), min_size=3, max_size=3)
-    return st.fixed_dictionaries({
+    triples = st.fixed_dictionaries({
         'actors': acts, 'two_ns': st.just(True),
         'bystander': st.booleans(),
         'choices': st.lists(st.integers(0, 3), max_size=40)})
+    fine = st.fixed_dictionaries({
+        'actors': st.lists(st.sampled_from(ACTORS), min_size=2, max_size=2),
+        'two_ns': st.booleans(), 'bystander': st.booleans(),
+        'fine': st.just(True),
+        'choices': st.lists(st.sampled_from([0, 0, 0, 1, 1, 2]),
+                            max_size=60)}).filter(
+        lambda c: c['two_ns'] or 'odisc' not in c['actors'])
+    return st.one_of(triples, fine, fine)
 
 
 def _execute(case):
@@ -144,7 +154,12 @@ def _execute(case):
                'disconnect': 1, 'sid_from_eio_sid': 1, 'eio_sid_from_sid': 1,
                'basic_disconnect': 1, 'get_rooms': 1}.get(name)
         return a[pos] if pos is not None and len(a) > pos else ''
-    coop.wrap_yield(sched, sio.manager, MGR_METHODS, 'mgr.', tag=ns_tag)
+    # fine mode: also the calls the manager makes to itself (basic_disconnect
+    # -> basic_leave_room ...) are yield points; too many schedules to
+    # enumerate, so this granularity is only sampled
+    coop.wrap_yield(sched, sio.manager, MGR_METHODS, 'mgr.', tag=ns_tag,
+                    nested=bool(case.get('fine')),
+                    atomic=('pre_disconnect',))
     coop.wrap_yield(sched, sio.eio, ['send', 'send_packet'], 'eio.')
     # (send -> send_packet is one access: only the outermost call yields)
     from engineio import packet as ep
